@@ -104,7 +104,10 @@ def _inside_grid_with_n(main_domain, domain_a, domain_b, n, params, invert, devi
     if number_inside == n:
         return grid_a
     # if the grid does not fit, scale the number of points
-    scaled_n = int(n**2 / number_inside)
+    if number_inside == 0:  # e.g. a coarse grid that completely misses the domain
+        scaled_n = 10 * n
+    else:
+        scaled_n = int(n**2 / number_inside)
     grid_a = domain_a.sample_grid(n=scaled_n, params=params, device=device)
     _, repeat_params = main_domain._repeat_params(scaled_n, params)
     index_valid = _check_in_b(domain_b, repeat_params, invert, grid_a)
@@ -240,8 +243,12 @@ def _boundary_grid_with_n(main_domain, domain_a, domain_b, n, params, device):
     a_surface = domain_a.boundary.volume(params, device=device)
     b_surface = domain_b.boundary.volume(params, device=device)
     approx_surface = a_surface * a_correct / n + b_surface * b_correct / n
-    scaled_a = int(n * a_surface / approx_surface) + 1  # round up
-    scaled_b = max(int(n * b_surface / approx_surface), 1)  # round to floor, but not 0
+    if sum_of_correct == 0:  # the coarse grids missed the boundary, just refine
+        scaled_a, scaled_b = 10 * n, 10 * n
+    else:
+        scaled_a = int(n * a_surface / approx_surface) + 1  # round up
+        # round to floor, but not 0
+        scaled_b = max(int(n * b_surface / approx_surface), 1)
     grid_a = domain_a.boundary.sample_grid(n=scaled_a, params=params, device=device)
     grid_b = domain_b.boundary.sample_grid(n=scaled_b, params=params, device=device)
     # check again how what points are correct and now just stay with this grid
